@@ -43,7 +43,8 @@ CLAIMED["C20"] = ("model_checking", "5 C20",
 CLAIMED["C13"] = ("model_checking", "5 C13",
     "The real SelectEventLoop.run() executes scripted sessions in which alarm delays, the clock and per-iteration descriptor readiness are solver variables "
     "(heapq compares symbolic due times, so every relative order of expiry is a path); ordering, not-before-due, removal, watch, idle and exception obligations are discharged per path.",
-    "z3 trusted; select loop only (asyncio/tornado/twisted/trio/glib/zmq adapters are not covered: stated in DESIGN and in the evidence); <= 3 alarms, 2 descriptors, 8 iterations.")
+    "z3 trusted; the symbolic clock drives the select loop only (<= 3 alarms, 2 descriptors, 8 iterations); select/asyncio/tornado/twisted/trio/zmq are additionally run on the real clock (real.*: "
+    "3 alarms 30 ms apart in every order, a pipe, an idle callback, catalogued callback behaviours chosen by the solver; 3 ms tolerance); glib is absent.")
 CLAIMED["C14"] = ("model_checking", "5 C14",
     "The real urwid.signals machinery runs histories whose operation kinds and targets are solver-chosen selectors, with handlers that disconnect, connect and re-emit during an emit; "
     "the statement's obligations are checked on every feasible history and the coverage certificate shows the selector space was exhausted.  No arithmetic content (said plainly).",
